@@ -9,6 +9,7 @@ import sys
 sys.path.insert(0, os.path.dirname(os.path.abspath(__file__)))
 from spec import *  # noqa: E402,F401
 from corpus import CORPUS  # noqa: E402
+import valgen  # noqa: E402
 
 ALL = frozenset(["key", "ser", "de", "any"])
 COPY_LEAVES = {"u8", "u16", "u32", "u64", "usize", "i8", "i16", "i32", "i64", "bool", "f32", "f64", "unit", "opti32",
@@ -193,23 +194,61 @@ class Gen:
         raise TypeError(t)
 
 
+def leaf_count(s):
+    if s[0] == "leaf":
+        return 1
+    if s[0] == "array":
+        return s[1] * leaf_count(s[2])
+    return sum(leaf_count(c) for c in s[2])
+
+
 def main(out_rs, out_json):
     g = Gen()
     entries = []
     arms = []
+    varms = []
+    vitems = []
     for k, (label, t) in enumerate(CORPUS):
         g.cur = k
         rust = g.ty(t)
         s = schema(t)
-        entries.append({"tid": k, "label": label, "rust": rust, "traits": sorted(traits(t)),
-                        "schema": s, "schema_text": schema_text(s)})
+        tr = traits(t)
+        entry = {"tid": k, "label": label, "rust": rust, "traits": sorted(tr),
+                 "schema": s, "schema_text": schema_text(s), "states": []}
         g.items.append(f"pub type C{k} = {rust};\n")
         arms.append(f"        {k} => crate::rt::tk_ops::<C{k}>(args),")
+        # value level (instances) for types of moderate size
+        if leaf_count(s) <= 64:
+            sts = valgen.states(t)
+            marms = []
+            for si, st in enumerate(sts):
+                inst = valgen.Inst(t, st).build(t)
+                marms.append(f"        {si} => Some({valgen.rust_make(inst)}),")
+                entry["states"].append({"sid": si, "choice": {str(a): b for a, b in st.items()},
+                                        "tree_text": valgen.tree_text(inst), "inst": valgen.inst_json(inst)})
+            inst0 = valgen.Inst(t, {}).build(t)
+            snap = valgen.SnapGen().stmts(inst0, "t", "root.clone()")
+            vitems.append(
+                f"#[allow(unused_variables, unused_mut, clippy::all)]\npub fn make_{k}(state: usize, keep: &mut Vec<Box<dyn std::any::Any>>) -> Option<C{k}> {{\n"
+                f"    match state {{\n" + "\n".join(marms) + "\n        _ => None,\n    }\n}\n"
+                f"#[allow(unused_variables, clippy::all)]\npub fn snap_{k}(t: &C{k}, out: &mut Vec<(String, String)>) {{\n    let root = String::new();\n{snap}}}\n")
+            def opt(name, need):
+                return f"Some(crate::vrt::f_{name}::<C{k}>)" if need in tr else "None"
+            varms.append(
+                f"        {k} => {{ let mut keep = vec![]; let Some(mut t) = make_{k}(state, &mut keep) else {{ return \"bad-op\".into() }};\n"
+                f"            let ops = crate::vrt::Ops::<C{k}> {{ jget: {opt('jget', 'ser')}, ser: {opt('ser', 'ser')}, jset: {opt('jset', 'de')}, "
+                f"de: {opt('de', 'de')}, pget: {opt('pget', 'ser')}, pset: {opt('pset', 'de')}, refany: {opt('refany', 'any')}, "
+                f"mutany: {opt('mutany', 'any')}, snap: snap_{k} }};\n"
+                f"            crate::vrt::run_ops(&mut t, args, &ops) }}")
+        entries.append(entry)
     src = ["// GENERATED by gen/typegen.py — do not edit.",
-           "#![allow(non_camel_case_types, dead_code, unused_imports, clippy::all)]",
+           "#![allow(non_camel_case_types, dead_code, unused_imports, unused_parens, clippy::all)]",
            "use miniconf::{Deny, Leaf, StrLeaf, TreeAny, TreeDeserialize, TreeKey, TreeSerialize};", ""]
     src += g.items
+    src += vitems
     src.append("pub fn dispatch_tk(tid: usize, args: &[&str]) -> String {\n    match tid {\n" + "\n".join(arms)
+               + "\n        _ => \"bad-op\".into(),\n    }\n}\n")
+    src.append("pub fn dispatch_tv(tid: usize, state: usize, args: &[&str]) -> String {\n    match tid {\n" + "\n".join(varms)
                + "\n        _ => \"bad-op\".into(),\n    }\n}\n")
     src.append(f"pub const N_TYPES: usize = {len(CORPUS)};\n")
     text = "\n".join(src)
